@@ -8,6 +8,7 @@ Script-level ops (script/sfmt/sreparse/dot/ptick/pjson) have no model: they are 
 import Kap.Basic
 import Kap.Model.C13
 import Kap.Model.C13Prog
+import Kap.Proofs.C13Prog
 import Kap.Spec.C13
 open Kap Kap.C13 Kap.C13.Gen
 
@@ -163,7 +164,7 @@ def cmpProg (st : St) (what : String) (obs : List String) : St :=
       | "ok" :: d =>
         match stripComments d with
         | some d' =>
-          if d' == dumpProgram p then addBr st ("prog-model" :: progBranches p)
+          if d' == dumpProgram p then addBr st ("prog-model" :: (if progWF p then "prog-wf" else "prog-not-wf") :: progBranches p)
           else noteMism st s!"{what}: program model {(dumpProgram p).take 40} observed {d'.take 40}"
         | none => noteMism st s!"{what}: unreadable dump"
       | _ => noteMism st s!"{what}: program model ok, observed {obs.take 4}"
